@@ -13,6 +13,7 @@ func init() { register("C13", checkC13) }
 func checkC13(c *Ctx) {
 	c.Explanation = "Decides the structural clauses of 'every reported value is emitted exactly once and intact': (O1) after the done check reportCopyMetric performs exactly one blocking enqueue (send on the queue or observe the done channel), the copy it enqueues carries the timestamp loaded from the reporter's clock and the size/bucket/bucketID it was given; every cached handle method or closure writes its value parameter into the field of its kind and calls reportCopyMetric exactly once with its own metric and size; (O2) the batching loop appends every dequeued metric exactly once, emits the open batch when the queue is closed, and the emitter sends the whole batch with the reporter's common tags and hands back an empty batch; (O3) Close closes the queue only after the drain wait and returns only after wg.Wait; (O4) a tag slice obtained from the hash-keyed tag cache is used only on a path where it was compared equal to the requested tags, the predicate compares length and every (name, value); (O5) the cached clock is stored in the constructor before the goroutines start."
 	c.Explanation += " Added later: (O8) borrowed tag slices go back to the pool emptied and the list remembering them is emptied on the same path; (O5) the clock is refreshed with time.Now().UnixNano() in a loop of a goroutine the constructor starts; (O7) ndigits counts decimal digits and the M3 renderers' open-end tables are exactly {+max: infinity, -max: -infinity}."
+	c.Explanation += " Added by round 8: (O3 handle-own-template) the handle returned by an Allocate call is a literal of that call whose metric is newMetric(name, tags, kind); (O2 transport-limit, shared with C15) the transport's limit is the datagram constant."
 	c.NotDecided = []string{"multiset equality of decoded datagrams", "timestamps as numbers", "byte-exact encodings (C16)"}
 	const pk = "m3"
 	rcm := c.fn(pk, "reporter", "reportCopyMetric")
